@@ -19,7 +19,7 @@ RULE = ("case = one generated project with 2-6 source files x mode (check|edit);
         "sig_before/sig_after with signo 2 and 15 at operation k (quick: sampled, thorough: every k from the first source-dir "
         "operation on, plus start-up boundaries), plus signal+I/O-fault and two-signal plans. Non-trivial = signal delivered; "
         "distinct = (world, mode, k, action, signo).")
-PROBES = ["unreadable_files_in_tree", "check_twin_passes", "signal_in_startup", "signal_in_discovery", "signal_in_pass1", "signal_in_pass2", "signal_after_last_file",
+PROBES = ["stalled_operation_after_signal", "unreadable_files_in_tree", "check_twin_passes", "signal_in_startup", "signal_in_discovery", "signal_in_pass1", "signal_in_pass2", "signal_after_last_file",
           "signal_plus_fault", "two_signals"]
 ASSUMPTIONS = ["'has begun scanning the sources' = first operation on the source directory in the trace",
                "one more source file may be started after the signal (the stop flag is polled between files)"]
@@ -96,6 +96,8 @@ def evaluate(wm, knobs, plan, check, ctx, twin=None):
     signame = "SIGINT" if f0["signo"] == 2 else "SIGTERM"
     mode = "check" if check else "edit"
     extra = "+fault" if len(plan["faults"]) > len(sigf) else ("+2sig" if len(sigf) > 1 else "")
+    if any(f["act"] == "stall" for f in plan["faults"]):
+        extra = "+stall"
     tag = "%s|%s%s|%s" % (mode, signame, extra, phase)
     digest = hashlib.sha256((res.trace_digest() + core.digest_world(run["after"])).encode()).hexdigest()
     scenario = {"wm": world.wm_to_json(wm), "knobs": knobs, "plan": plan, "check": check}
@@ -227,6 +229,12 @@ def run_case(rng, idx, tier, ctx):
             f2 = {"from": 1, "kinds": [rng.choice(["RENAME", "RENAME", "OPEN_R", "WRITE", "UNLINK"])], "nth": rng.randrange(1, nren + 2),
                   "act": rng.choice(["sig_after", "sig_before"]), "signo": rng.choice([2, 15])}
             extra.append(("fault", {"seed": base["seed"], "perm": True, "faults": [f2, f1]}))
+    if rng.random() < (0.12 if not thorough else 0.5) and pool:
+        # slow storage: the stop request arrives and the operation in progress then takes four seconds to complete
+        o = rng.choice(pool)
+        extra.append(("stall", {"seed": base["seed"], "perm": True,
+                                "faults": [{"k": o.k, "act": "sig_before", "signo": rng.choice([2, 15])},
+                                           {"k": o.k, "act": "stall", "frac": 4.0}]}))
     if not ctx.samples:
         ctx.samples.append({"mode": "check" if check else "edit", "files": sorted(wm["files"]), "k0": k0, "K": K,
                             "twin_ops": [o.short() for o in ops][:50], "first_plans": [p["faults"] for p in plans[:4]]})
@@ -254,6 +262,8 @@ def run_case(rng, idx, tier, ctx):
                 ctx.probes["signal_plus_fault"] += 1
             if name == "2sig":
                 ctx.probes["two_signals"] += 1
+            if name == "stall":
+                ctx.probes["stalled_operation_after_signal"] += 1
         viols += vs
     return viols
 
